@@ -154,6 +154,19 @@ WRONG_PASSWORDS = [
 
 
 # ------------------------------------------------------------------------------------------ the check
+class ControlAuthFailed(Exception):
+    """AUTH <exact password> on a fresh connection of a fresh server was not answered +OK"""
+
+
+FALLBACK_NAMES = ("VERIF PING ECHO SET GET INCR DECR INCRBY DECRBY DEL EXISTS EXPIRE TTL SELECT FLUSHDB FLUSHALL DBSIZE SETNX SETEX PSETEX SLEEP CONFIG MGET MSET "
+                  "GETSET APPEND STRLEN GETRANGE SETRANGE TYPE RENAME RENAMENX RANDOMKEY BLPOP BRPOP KEYS PEXPIRE PTTL PERSIST LPUSH RPUSH LPOP RPOP LLEN LRANGE "
+                  "LINDEX LSET LTRIM LREM SADD SREM SMEMBERS SISMEMBER SCARD SUNION SINTER SDIFF SRANDMEMBER SPOP HSET HGET HMSET HMGET HGETALL HDEL HLEN HEXISTS "
+                  "HKEYS HVALS HINCRBY ZADD ZREM ZSCORE ZCARD ZRANK ZREVRANK ZRANGE ZREVRANGE ZRANGEBYSCORE ZREVRANGEBYSCORE ZCOUNT ZINCRBY ZPOPMIN ZPOPMAX XADD "
+                  "XRANGE XREVRANGE XLEN XREAD XTRIM XDEL XGROUP XREADGROUP XACK XCLAIM XPENDING XINFO SAVE BGSAVE LASTSAVE SCAN HSCAN SSCAN ZSCAN BGREWRITEAOF "
+                  "INFO SLOWLOG MEMORY CLIENT AUTH REPLICAOF SLAVEOF SYNC PSYNC QUIT EVAL EVALSHA COMMAND SHUTDOWN SCRIPT MULTI EXEC DISCARD WATCH UNWATCH PUBLISH "
+                  "SUBSCRIBE UNSUBSCRIBE PSUBSCRIBE PUNSUBSCRIBE REPLCONF MONITOR").split()
+
+
 def canon_class(c):
     """a reply of dispatch and the same reply produced by the gate's own arms are the same class"""
     return {"d ( s 4f4b )": "ok", "d ( s 504f4e47 )": "pong"}.get(c, c)
@@ -169,7 +182,15 @@ class C17:
         self.guarded = [unhx(x) for x in kv["guarded"].split("|")] if kv["guarded"] != "." else []
         self.unknown = [unhx(x) for x in kv["unknown"].split("|")] if kv.get("unknown", ".") != "." else []
         self.allow = [unhx(x.split(":")[0]) for x in kv["allow"].split("|")] if kv["allow"] != "." else []
-        self.names = [unhx(x).decode() for x in self.ask("names").split("|")]
+        self.blind = int(kv.get("unreadable", "0")) > 0            # the translator could not read the source: no predictions
+        self.deferral = kv.get("deferral", "absent")
+        self.unreadable = self.model.ask("unreadable") or "."
+        a = self.ask("names")
+        self.names = [unhx(x).decode() for x in a.split("|")] if a != "." else []
+        self.names_from = "Gen.allCommandNames (regenerated)"
+        if len(self.names) < 20:
+            # the dispatch table could not be read: the search still runs, over the last table this file has seen
+            self.names, self.names_from = list(FALLBACK_NAMES), "built-in fallback list (dispatch table unreadable)"
         self.oracle_failures, self.disagreements = [], []
         self.next_conn = 0
         self.nonce = 0
@@ -195,8 +216,10 @@ class C17:
         self.ctl_id = self.next_conn - 1
         r = self.ctl.cmd("AUTH", PASSWORD)
         m = self.ask("frame %d cmd %s %s" % (self.ctl_id, hx(b"AUTH"), hx(PASSWORD)))
-        if r != ("s", b"OK") or not m.startswith("ok # auth-ok # authenticated"):
-            raise InternalError("control connection could not authenticate: impl %r model %r" % (r, m))
+        if r != ("s", b"OK"):
+            raise ControlAuthFailed(r)
+        if not (m.startswith("ok # auth-ok # authenticated") or (self.blind and m.startswith("unknown # auth-ok"))):
+            raise InternalError("model: the exact password does not authenticate: %r" % m)
         for db in CANARY_DBS:
             self.ctl.cmd("SELECT", db)
             self.ctl.cmd("SET", canary_key(db), canary_val(db, self.seed))
@@ -383,8 +406,10 @@ class C17:
                 r = o.cmd("AUTH", PASSWORD)
                 m = self.ask("frame %d cmd %s %s" % (oid, hx(b"AUTH"), hx(PASSWORD)))
                 r2 = o.cmd("GET", "c17:n")
-                if r != ("s", b"OK") or not m.startswith("ok # auth-ok") or r2 != ("b", b"10"):
+                if r != ("s", b"OK") or r2 != ("b", b"10"):
                     rec["problems"].append({"kind": "oracle", "why": "the exact password did not authenticate another connection", "impl": [repr(r), repr(r2)], "code": m})
+                elif not m.startswith(("ok # auth-ok", "unknown # auth-ok")):
+                    rec["problems"].append({"kind": "model", "why": "model: the exact password did not authenticate another connection", "code": m})
                 o.close()
                 self.ask("drop %d" % oid)
             # -- the pipeline, in one write
@@ -500,6 +525,95 @@ class C17:
         if stage == "pipe" and state_after != "closing" and how != "sentinel":
             rec["problems"].append({"kind": "oracle", "why": "connection unusable after refused requests (%s)" % how, "stage": stage})
 
+    # ---- an authenticated connection blocks with frames kept back; an unauthenticated one next to it
+    def waiters(self, key):
+        """number of connections registered as blocked on `key` (VERIF BLOCKED of database 0), None if the hook is absent"""
+        r = self.ctl.cmd("VERIF", "BLOCKED")
+        if r[0] != "a":
+            return None
+        xs = r[1]
+        for i in range(0, len(xs) - 1, 2):
+            if xs[i] == ("b", key) and xs[i + 1][0] == "a":
+                return len(xs[i + 1][1])
+        return 0
+
+    def blocked_session(self, cmd, timeout_arg, tag):
+        """A authenticates and sends `BLPOP q <t>; GET n; AUTH wrong; GET n; PING` in one write: it blocks, the rest is kept back
+        (`Connection::deferred_frames`).  Meanwhile an unauthenticated connection sends `GET canary; BLPOP q 0; GET canary`
+        (a run_case: refused at once, nothing parked, no waiter registered).  A is then served (or times out) and the
+        frames kept back run with A's own rights: the failed AUTH inside them changes nothing."""
+        q = b"c17:q"
+        rec = {"case": {"tag": tag, "pre": [], "note": "authenticated connection blocked in %s, unauthenticated neighbour" % cmd.decode()},
+               "problems": [], "impl": [], "code": [], "spec": []}
+        recs = []
+        self.cur = rec
+        a = self.srv.client()
+        aid = self.m_accept()
+        try:
+            try:
+                r = a.cmd("AUTH", PASSWORD)
+                m = self.ask("frame %d cmd %s %s" % (aid, hx(b"AUTH"), hx(PASSWORD)))
+                if r != ("s", b"OK"):
+                    rec["problems"].append({"kind": "oracle", "why": "the exact password does not authenticate: %r" % (r,)})
+                    return [rec]
+                tail = [Req(b"GET", [b"c17:n"]), Req(b"AUTH", [PASSWORD[:-1]]), Req(b"GET", [b"c17:n"]), Req(b"PING", [])]
+                a.send_raw(Req(cmd, [q, timeout_arg]).wire() + b"".join(x.wire() for x in tail))
+                quiet = a.nothing_pending(0.05)
+                w1 = self.waiters(q)
+                # the unauthenticated neighbour, judged and compared like every other case
+                u = self.run_case({"tag": tag + "/neighbour", "pre": [], "other_auth": False, "target": 1,
+                                   "pipe": [Req(b"GET", [canary_key(0)]), Req(b"BLPOP", [q, b"0"]), Req(b"GET", [canary_key(0)])]})
+                if u["problems"]:
+                    recs.append(u)
+                if u.get("stopped") == "lost":
+                    return recs
+                w2 = self.waiters(q)
+                if w1 is not None and w2 is not None and w2 > w1:
+                    rec["problems"].append({"kind": "oracle", "why": "the BLPOP of an unauthenticated connection registered a waiter (%d -> %d on c17:q)" % (w1, w2)})
+                if timeout_arg == b"0":
+                    self.ctl.cmd("RPUSH", q, "v1")
+                    first = ("a", [("b", q), ("b", b"v1")])
+                else:
+                    first = ("na",)
+                got = []
+                for _ in range(1 + len(tail)):
+                    try:
+                        got.append(a.read_reply(3.0))
+                    except (Closed, OSError, ProtocolError) as e:
+                        got.append(("closed", type(e).__name__))
+                        break
+                want = [first, ("b", b"10"), "err", ("b", b"10"), ("s", b"PONG")]
+                shown = ["err" if g[0] == "e" else show_reply(g) if g[0] != "closed" else "closed" for g in got]
+                rec["impl"] = [{"stage": "blocked", "quiet_while_blocked": quiet, "waiters": [w1, w2], "replies": shown}]
+                okay = len(got) == len(want) and all((w == "err" and g[0] == "e") or g == w for g, w in zip(got, want))
+                self.rep.count("blocked-session.%s" % ("as-expected" if okay and quiet else "deviates"))
+                self.rep.nontrivial(("blocked-session", cmd, timeout_arg, quiet, tuple(shown)))
+                if any(g[0] == "e" and g[1].startswith(b"NOAUTH") for g in got):
+                    rec["problems"].append({"kind": "oracle", "why": "an authenticated connection was answered NOAUTH for frames of its own batch (kept back / run while it was blocked): %s" % shown})
+                elif len(got) > 3 and got[1] == ("b", b"10") and got[3] != ("b", b"10"):
+                    rec["problems"].append({"kind": "oracle", "why": "a failed AUTH inside the frames kept back changed the connection's rights: %s" % shown})
+                # nobody else was waiting: a second element stays in the list
+                if timeout_arg == b"0":
+                    self.ctl.cmd("RPUSH", q, "v2")
+                    n = self.ctl.cmd("LLEN", q)
+                    if n != ("i", 1) and okay:
+                        rec["problems"].append({"kind": "oracle", "why": "an element pushed after A was served did not stay in the list (LLEN %r): somebody else was registered" % (n,)})
+                self.ctl.cmd("DEL", q)
+            except (OSError, Closed, ProtocolError) as e:
+                rec["problems"].append({"kind": "oracle", "lost": True, "why": "control connection / server lost in a blocked session (%s: %s)" % (type(e).__name__, e)})
+                self.start_server()
+                return recs + [rec]
+        finally:
+            a.close()
+            try:
+                self.ask("drop %d" % aid)
+            except InternalError:
+                pass
+        self.rep.evaluations += 1
+        if rec["problems"]:
+            recs.append(rec)
+        return recs
+
     # ---- after authenticating, commands work; QUIT closes
     def authenticated_session(self, pre):
         u = self.srv.client()
@@ -522,7 +636,10 @@ class C17:
                 rec["code"].append(c)
                 self.rep.count("session." + a.split(" ")[0])
                 self.rep.nontrivial(("session", q.name.upper()[:8], a.split(" ")[0], v))
-                if a != c:
+                if c == "unknown":
+                    if (v in ("must-refuse", "auth-fail") and not a.startswith("err")) or (v == "auth-ok" and a != "ok"):
+                        rec["problems"].append({"kind": "oracle", "why": "session: %s answered %s (%s)" % (q.text()[:80], a, v), "request": q.text(), "name": hx(q.name)})
+                elif a != c:
                     rec["problems"].append({"kind": "oracle" if v in ("must-refuse", "auth-fail", "auth-ok") else "model",
                                             "why": "authenticated session: impl %s, model %s (%s)" % (a, c, v), "request": q.text(), "name": hx(q.name)})
             try:
@@ -665,12 +782,21 @@ def main(tier, seed):
         "String::from_utf8_lossy / to_uppercase / trim are parameters of the theorems; the driver's concrete normalisation is exact on the question 'equal to an ASCII name' (validated on ~150 hostile names per run)",
         "statistics counters (total_commands_processed, auth_failures) are not part of the modelled state: refused frames do increment them",
         "the server is a master (REPLICAOF is never executed); on a replica handle_sync_command fails with Err and the connection is dropped",
+        "frames kept back behind a blocking command (Connection::deferred_frames) are executed later through the same frame loop, i.e. through the gate; in the model that is a later batch of the same connection, and deferral_needs_authentication shows an unauthenticated connection never has frames kept back; source tie: Gen.deferral",
         "TCP segmentation: each pipeline is sent in one write and normally processed as one batch; batch boundaries only matter for when QUIT closes the connection",
     ]
     ok, log, errs = proof_phase(rep, families=["auth"])
     build_server()
     findings = load_findings()
-    c17 = C17(rep, seed)
+    try:
+        c17 = C17(rep, seed)
+    except ControlAuthFailed as e:
+        # nothing can be explored without a control connection, and this IS a failure of the property
+        rep.violation("C17: the exact password does not authenticate a fresh connection of a fresh server (reply %r)" % (e.args[0],),
+                      {"replay": {"case": {"tag": "control-auth", "pre": [], "other_auth": False, "target": 0, "cuts": [],
+                                           "pipe": [Req(b"AUTH", [PASSWORD]).to_json()]}, "impl": [repr(e.args[0])], "spec": ["auth-ok"]},
+                       "family": "auth", "password": hx(PASSWORD)})
+        return rep.finish()
     recs = []
     try:
         r = Rng(seed)
@@ -678,11 +804,18 @@ def main(tier, seed):
         reqs = requests(c17, tier)
         rep.extra["tables"] = c17.tables
         rep.extra["names_in_dispatch_table"] = len(c17.names)
+        rep.extra["names_from"] = c17.names_from
+        rep.extra["model_predicts"] = "nothing (Gen.unreadable is not empty: oracle-only search)" if c17.blind else "everything except names in `unknown`"
+        rep.extra["deferred_frames"] = c17.deferral
+        rep.extra["source_shapes_not_understood"] = c17.unreadable
         rep.extra["requests"] = len(reqs)
         rep.extra["situations"] = len(sts)
         budget = Budget()
         # -- 1. only the exact password authenticates: decided first, with nothing hostile on the connection
         recs += wrong_password_family(c17, budget)
+        # -- 1b. blocking commands and the frames kept back behind them
+        if not budget.spent():
+            recs += blocked_family(c17, r, tier, sts, budget)
         # -- 2. every name x arguments x situation x position
         if not budget.spent():
             recs += matrix(c17, r, tier, sts, reqs, budget)
@@ -759,6 +892,35 @@ def wrong_password_family(c17, budget):
                     recs.append(rec)
             if budget.spent():
                 return recs
+    return recs
+
+
+def blocked_family(c17, r, tier, sts, budget):
+    """frames kept back behind a blocking command (`Connection::deferred_frames`): (a) an unauthenticated connection cannot
+    block, so `BLPOP k 0; GET canary` is two refusals at once and nothing is parked — in every situation; (b) an
+    authenticated connection that blocks with frames behind it, next to an unauthenticated one."""
+    recs = []
+    q = b"c17:q"
+    get, ping = Req(b"GET", [canary_key(0)]), Req(b"PING", [])
+    pipes = [("blpop0;get", [Req(b"BLPOP", [q, b"0"]), get], 1), ("brpop0;sync;ping", [Req(b"BRPOP", [q, b"0"]), Req(b"SYNC", []), ping], 1),
+             ("auth-wrong;blpop0;get;ping", [Req(b"AUTH", [b"wrong-password"]), Req(b"blpop", [q, b"0"]), get, ping], 2),
+             ("blpop0;blpop0;psync", [Req(b"BLPOP", [q, b"0"]), Req(b"BLPOP", [canary_key(0), b"0"]), Req(b"PSYNC", [b"?", b"-1"])], 2),
+             ("blpop-nonempty;get", [Req(b"BLPOP", [b"c17:list", b"0"]), get], 0), ("blpop0;subscribe;monitor", [Req(b"BLPOP", [q, b"0.01"]), Req(b"SUBSCRIBE", [CHAN]), Req(b"MONITOR", [])], 1)]
+    use = sts if tier == "thorough" else sts[:2] + [sts[2 + r.below(len(sts) - 2)] for _ in range(4)]
+    for st_tag, pre, other in use:
+        for tag, pipe, target in pipes:
+            rec = c17.run_case({"tag": "deferred/%s/%s" % (tag, st_tag), "pre": pre, "other_auth": other, "pipe": pipe, "target": target})
+            budget.note(rec)
+            c17.rep.nontrivial(("deferred", tag, st_tag.split(":")[0], tclass(rec, target).split(" ")[0]))
+            c17.rep.count("deferred.unauthenticated-pipeline-with-blocking-command")
+            if rec["problems"]:
+                recs.append(rec)
+            if budget.spent():
+                return recs
+    for cmd, t in ((b"BLPOP", b"0"), (b"BRPOP", b"0"), (b"BLPOP", b"0.3")) + (((b"blpop", b"0"),) * 20 if tier == "thorough" else ()):
+        for rec in c17.blocked_session(cmd, t, "blocked-session/%s/%s" % (cmd.decode(), t.decode())):
+            budget.note(rec)
+            recs.append(rec)
     return recs
 
 
@@ -914,7 +1076,9 @@ def verdict(rep, ok, log, errs, c17, new, known, model, findings):
                        "more": [{"case": r["case"]["tag"], "why": q["why"][:200]} for r, q in new[1:8]], "lean_errors": errs[:5]})
     elif not ok:
         rep.violation("proof obligations of C17 no longer check against the regenerated tables",
-                      {"theorem_errors": errs[:10], "log_tail": log[-3000:], "tables": c17.tables}, no_input=True)
+                      {"theorem_errors": errs[:10], "log_tail": log[-3000:], "tables": c17.tables, "source_shapes_not_understood": c17.unreadable,
+                       "searched": "TCP run with the Spec as oracle: %d cases, model predictions %s" % (
+                           rep.evaluations, "none" if c17.blind else "all but `unknown` names")}, no_input=True)
     else:
         real = [(r, p) for r, p in model if not any(known_match(c17, q, r, findings) for q in r["problems"] if q["kind"] == "oracle")]
         if real:
